@@ -1,6 +1,7 @@
 import OnlVerif.Lemmas.TcpSink
 import OnlVerif.Lemmas.TcpSender
 import OnlVerif.Lemmas.TcpLoop
+import OnlVerif.Lemmas.GenSink
 import OnlVerif.Lemmas.TcpLiveQuiet
 import OnlVerif.Lemmas.TcpLiveRun
 import OnlVerif.Lemmas.TcpLiveTRun
@@ -411,6 +412,34 @@ of segment 0 dropped, the real run ends (event queue empty) with `last_ack = nex
 `next_seq + 512 ≤ last_ack + cwnd` never opens again while nothing is outstanding that could produce an event (the
 `example` below replays it in the model).
 -/
+
+/-! ## The sink source, re-translated on every run, *is* the model (bridge theorems)
+
+`Generated/Sink.lean` is rewritten by `py2lean` from the current `onl/packet/tcp_sink.py` before this file is compiled. -/
+
+/-- **The range-merge loop of `packet_arrived` as written in the source computes the model's `mergeAll`**: running the
+*translated loop body* over any list of ranges — starting from the empty `merge_stats`, every `append` making the previous
+last element final (`GenSink.genMerge`, the meaning of the structurally checked frame `merge_stats = []` / `for start, end in
+self.recv_buffer` / `self.recv_buffer = merge_stats`) — yields exactly `mergeAll` of that list.  With the frame's
+`append([packet_id, packet_id + size])` and `sort()` this is `packetArrived`.  (`<=` changed to `<` in the overlap test,
+`max` to `min`, the wrong element appended … make this fail to compile.) -/
+theorem sink_merge_generated_eq_model (l : List Range) :
+    GenSink.genMerge (GenSink.mergeObj none 0) l = (mergeAll l).map GenSink.castR :=
+  GenSink.genMerge_eq l
+
+/-- **`TCPSink.put` as written in the source computes the model's `ackOf`**: on a non-empty receive buffer with first range
+`r`, the translated `put` calls `super().put`, `packet_arrived`, builds the acknowledgement (`size=40`, same `packet_id`,
+`flow_id + 10000` — checked structurally), writes `ack = r.2 if r.1 == 0 else 0` — the model's `ackOf` — into it and hands
+it to `out` exactly once. -/
+theorem sink_put_generated_eq_model (r : Range) (rest : List Range) (nse ack : Int) (e1 e2 e3 e4 e5 : Nat) :
+    ∃ a, ackOf (r :: rest) = .ok a ∧
+      Gen.TCPSink.put (GenSink.sinkObj nse ack e1 e2 e3 e4 e5) r.1 r.2 =
+        GenSink.sinkObj a a (e1 + 1) (e2 + 1) (e3 + 1) (e4 + 1) (e5 + 1) :=
+  GenSink.put_eq r rest nse ack e1 e2 e3 e4 e5
+
+/-- the translated loop body run over the sorted ranges `[0,512) [512,1024) [2048,2560)`: the first two merge -/
+example : GenSink.genMerge (GenSink.mergeObj none 0) [(0, 512), (512, 1024), (2048, 2560)] = [(0, 1024), (2048, 2560)] := by
+  decide +kernel
 
 /-! ## non-vacuity -/
 
